@@ -30,6 +30,17 @@ type c13FamilyCase struct {
 // server into the program); the recorded payload keeps the unfinished scenario, so a replay prepares it again.
 var c13FamilyPrep = map[string]func(sc goxScenario) (goxScenario, func()){}
 
+// c13FamilyExec lets a family execute its scenarios in its own way (the after-failure family executes the lines of a
+// program one by one in ONE session, going on after a line that fails); goxRunOnce otherwise. Same outcome text.
+var c13FamilyExec = map[string]func(dir string, sc goxScenario, cpu int, controlled bool, prefix []int) (string, gox.Execution){}
+
+func c13FamilyExecOf(family string) func(dir string, sc goxScenario, cpu int, controlled bool, prefix []int) (string, gox.Execution) {
+	if f := c13FamilyExec[family]; f != nil {
+		return f
+	}
+	return goxRunOnce
+}
+
 func c13FamilyOnly(family string) bool {
 	only := os.Getenv("VERIF_C13_FAMILY")
 	return only == "" || only == family
@@ -55,6 +66,7 @@ func c13FamilyRun(c *core.Ctx, family string, cases []c13FamilyCase, before func
 	defer func() { query.GetGoroutineManager().MinimumRequiredPerCore = prev }()
 	dir := core.Scratch("c13-" + family)
 	prep := c13FamilyPrep[family]
+	runOnce := c13FamilyExecOf(family)
 	for i, k := range cases {
 		if !c.Mine(int64(i)) {
 			continue
@@ -98,7 +110,7 @@ func c13FamilyRun(c *core.Ctx, family string, cases []c13FamilyCase, before func
 			var out string
 			e.ExploreRunner(func(prefix []int) gox.Execution {
 				var ex gox.Execution
-				out, ex = goxRunOnce(dir, sched, sched.CPU, true, prefix)
+				out, ex = runOnce(dir, sched, sched.CPU, true, prefix)
 				return ex
 			}, func(choices []int, ex gox.Execution) {
 				if ex.Tasks > 1 {
@@ -133,7 +145,7 @@ func c13FamilyRun(c *core.Ctx, family string, cases []c13FamilyCase, before func
 		}
 		if sched.SQL != "" && c.Thorough() {
 			// the number of executions grows with the square of the choice points of the all-default execution
-			_, probe := goxRunOnce(dir, sched, sched.CPU, true, nil)
+			_, probe := runOnce(dir, sched, sched.CPU, true, nil)
 			report(k.Sched, nil, false)
 			if len(probe.Points) <= 50 {
 				pass(2, " (2 decisions)")
@@ -151,7 +163,7 @@ func c13FamilyRun(c *core.Ctx, family string, cases []c13FamilyCase, before func
 			}
 		}
 		for r := 0; r < runs; r++ {
-			out, _ := goxRunOnce(dir, free, 4, false, nil)
+			out, _ := runOnce(dir, free, 4, false, nil)
 			if bad := c13FamilyFailure(out); bad != "" && r == 0 && !strings.Contains(k.Name, "error") {
 				c.Incomplete(fmt.Sprintf("family %s, case %s: the program of the free runs fails: %s", family, k.Name, clip(bad)))
 			}
